@@ -88,6 +88,8 @@ pub enum Ans {
     One,
     Half,
     Fail,
+    /// a transfer callback reports EINTR without transferring anything (the call is then retried by the library)
+    Eintr,
 }
 
 #[derive(Clone, Debug, Default, PartialEq, Eq, Hash)]
@@ -108,6 +110,7 @@ impl Sched {
                 "One" => Ans::One,
                 "Half" => Ans::Half,
                 "Fail" => Ans::Fail,
+                "Eintr" => Ans::Eintr,
                 _ => Ans::All,
             };
             s.at.insert(k.parse().unwrap_or(0), a);
@@ -127,6 +130,8 @@ struct Env {
     /// per extracted file
     files: Vec<(String, Vec<u8>)>,
     fault_seen: bool,
+    /// the refusal just produced by `answer` is an interruption (EINTR), not a failure
+    eintr: bool,
     /// names the file callback declines (non-zero return: "do not extract this file")
     decline: Vec<String>,
 }
@@ -144,6 +149,10 @@ fn answer(env: &mut Env, n: u32, transfer: bool) -> Option<u32> {
             env.fault_seen = true;
             None
         }
+        Some(Ans::Eintr) if transfer => {
+            env.eintr = true;
+            None
+        }
         Some(Ans::One) if transfer => Some(n.min(1)),
         Some(Ans::Half) if transfer => Some(n.div_ceil(2)),
         _ => Some(match (env.sched.uniform, transfer) {
@@ -156,7 +165,9 @@ fn answer(env: &mut Env, n: u32, transfer: bool) -> Option<u32> {
 extern "C" fn write_cb(buf: *const u8, len: u32, ctx: *mut c_void, written: *mut u32) -> i32 {
     let env = unsafe { &mut *(ctx as *mut Env) };
     match answer(env, len, true) {
-        None => 5,
+        None => {
+            if std::mem::take(&mut env.eintr) { 4 } else { 5 }
+        }
         Some(n) => {
             env.out.extend_from_slice(unsafe { std::slice::from_raw_parts(buf, n as usize) });
             unsafe { *written = n };
@@ -175,7 +186,9 @@ extern "C" fn read_cb(buf: *mut u8, len: u32, ctx: *mut c_void, read: *mut u32) 
     let env = unsafe { &mut *(ctx as *mut Env) };
     let remaining = (env.src.len() as u64).saturating_sub(env.pos) as u32;
     match answer(env, len.min(remaining), true) {
-        None => 5,
+        None => {
+            if std::mem::take(&mut env.eintr) { 4 } else { 5 }
+        }
         Some(n) => {
             let p = env.pos as usize;
             unsafe { std::ptr::copy_nonoverlapping(env.src[p..].as_ptr(), buf, n as usize) };
@@ -207,7 +220,9 @@ extern "C" fn file_write_cb(buf: *const u8, len: u32, ctx: *mut c_void, written:
     let fc = unsafe { &mut *(ctx as *mut FileCtx) };
     let env = unsafe { &mut *fc.env };
     match answer(env, len, true) {
-        None => 5,
+        None => {
+            if std::mem::take(&mut env.eintr) { 4 } else { 5 }
+        }
         Some(n) => {
             env.files[fc.idx].1.extend_from_slice(unsafe { std::slice::from_raw_parts(buf, n as usize) });
             unsafe { *written = n };
@@ -295,7 +310,7 @@ struct WriteResult {
 }
 
 fn c_write(lib: &Lib, p: &Program, level: u32, sched: &Sched) -> WriteResult {
-    let mut env = Box::new(Env { sched: sched.clone(), calls: 0, out: Vec::new(), src: Vec::new(), pos: 0, files: Vec::new(), fault_seen: false, decline: Vec::new() });
+    let mut env = Box::new(Env { sched: sched.clone(), calls: 0, out: Vec::new(), src: Vec::new(), pos: 0, files: Vec::new(), fault_seen: false, eintr: false, decline: Vec::new() });
     let ctx = &mut *env as *mut Env as *mut c_void;
     let mut st = Vec::new();
     let mut cfg: *mut c_void = std::ptr::null_mut();
@@ -377,7 +392,7 @@ struct ExtractResult {
 }
 
 fn c_extract(lib: &Lib, archive: &[u8], encrypted: bool, sched: &Sched, decline: &[String]) -> ExtractResult {
-    let mut env = Box::new(Env { sched: sched.clone(), calls: 0, out: Vec::new(), src: archive.to_vec(), pos: 0, files: Vec::new(), fault_seen: false, decline: decline.to_vec() });
+    let mut env = Box::new(Env { sched: sched.clone(), calls: 0, out: Vec::new(), src: archive.to_vec(), pos: 0, files: Vec::new(), fault_seen: false, eintr: false, decline: decline.to_vec() });
     let ctx = &mut *env as *mut Env as *mut c_void;
     let mut cfg: *mut c_void = std::ptr::null_mut();
     (lib.reader_config_new)(&mut cfg);
@@ -418,7 +433,7 @@ fn c_extract(lib: &Lib, archive: &[u8], encrypted: bool, sched: &Sched, decline:
 
 /// NULL pointers in every parameter position, handles cleared by the interface, double close.
 fn null_placement(lib: &Lib, k: usize) -> Option<(String, u64)> {
-    let mut env = Box::new(Env { sched: Sched::default(), calls: 0, out: Vec::new(), src: Vec::new(), pos: 0, files: Vec::new(), fault_seen: false, decline: Vec::new() });
+    let mut env = Box::new(Env { sched: Sched::default(), calls: 0, out: Vec::new(), src: Vec::new(), pos: 0, files: Vec::new(), fault_seen: false, eintr: false, decline: Vec::new() });
     let ctx = &mut *env as *mut Env as *mut c_void;
     let null: *mut c_void = std::ptr::null_mut();
     let pk = pem_of_key(0, false);
@@ -730,7 +745,7 @@ fn run_case(lib: &Lib, c: &Case, rep: &mut Report) {
             let n = one(sched, rep);
             if *explore_faults {
                 for i in 0..n {
-                    for a in [Ans::One, Ans::Half, Ans::Fail] {
+                    for a in [Ans::One, Ans::Half, Ans::Fail, Ans::Eintr] {
                         let mut s = sched.clone();
                         s.at.insert(i, a);
                         one(&s, rep);
@@ -788,7 +803,7 @@ fn run_case(lib: &Lib, c: &Case, rep: &mut Report) {
             let n = one(sched, rep);
             if *explore_faults {
                 for i in 0..n {
-                    for a in [Ans::One, Ans::Half, Ans::Fail] {
+                    for a in [Ans::One, Ans::Half, Ans::Fail, Ans::Eintr] {
                         let mut s = sched.clone();
                         s.at.insert(i, a);
                         one(&s, rep);
@@ -917,7 +932,7 @@ pub fn run(started: Instant) -> i32 {
         rep,
         Meta {
             level: "model_checking",
-            rule: "libmla.so built from the working tree is loaded with dlopen and driven through its C entry points in worker processes. (1) every program of a bounded tree (and rich bases, flush placements) expressed as mla_archive_file_new/append/flush/close + mla_archive_close, with one recipient, two recipients in one PEM text or two in two calls (the archive is read back with the key of the last one), and write callbacks that accept everything / 1 byte / 7 bytes per call; the collected bytes are read by the Rust ArchiveReader and compared with the reference model; where the program calls mla_archive_flush, the bytes the callback had received when it returned are repaired and must hold what had been appended (C14's oracle). (2) archives written by the Rust writer (4 layer combos) extracted with mla_roarchive_extract through read callbacks returning everything / 1 / 5 bytes and per-file write callbacks accepting partial buffers: exact bytes per file; also with a file callback that declines every other file (subset extraction: nothing for the declined ones); base programs also with non-ASCII, nested and spaced names in both directions; on fault-free schedules the context has been used before, by mla_roarchive_info (version and layer bits checked against the header) or by a complete earlier extraction, and is not rewound by the caller. (3) for a subset of (1)/(2), at EVERY callback invocation index: accept 1 byte, accept half, or report failure - a reported failure must surface as a non-success status no later than the close; 37 NULL-pointer / cleared-handle / double-close / handle-after-failed-call placements and 7 calls refused for other reasons (duplicate name - the archive must then be the archive of the accepted calls -, close with a file open, level 12, malformed or wrong-kind key, extraction without / with a foreign key) must return a non-success status. No crash, signal or panic across the FFI in any case. states = distinct (case, schedule)".to_string(),
+            rule: "libmla.so built from the working tree is loaded with dlopen and driven through its C entry points in worker processes. (1) every program of a bounded tree (and rich bases, flush placements) expressed as mla_archive_file_new/append/flush/close + mla_archive_close, with one recipient, two recipients in one PEM text or two in two calls (the archive is read back with the key of the last one), and write callbacks that accept everything / 1 byte / 7 bytes per call; the collected bytes are read by the Rust ArchiveReader and compared with the reference model; where the program calls mla_archive_flush, the bytes the callback had received when it returned are repaired and must hold what had been appended (C14's oracle). (2) archives written by the Rust writer (4 layer combos) extracted with mla_roarchive_extract through read callbacks returning everything / 1 / 5 bytes and per-file write callbacks accepting partial buffers: exact bytes per file; also with a file callback that declines every other file (subset extraction: nothing for the declined ones); base programs also with non-ASCII, nested and spaced names in both directions; on fault-free schedules the context has been used before, by mla_roarchive_info (version and layer bits checked against the header) or by a complete earlier extraction, and is not rewound by the caller. (3) for a subset of (1)/(2), at EVERY callback invocation index: accept 1 byte, accept half, report failure, or report an interruption (EINTR, nothing transferred: the call must be retried and the result be exact) - a reported failure must surface as a non-success status no later than the close; 37 NULL-pointer / cleared-handle / double-close / handle-after-failed-call placements and 7 calls refused for other reasons (duplicate name - the archive must then be the archive of the accepted calls -, close with a file open, level 12, malformed or wrong-kind key, extraction without / with a foreign key) must return a non-success status. No crash, signal or panic across the FFI in any case. states = distinct (case, schedule)".to_string(),
             exhaustive: true,
             bounds: json!({"cases": cs.len(), "null_placements": N_NULL}),
             assumptions: vec!["the C API only offers the default layers (compress+encrypt) for writing".to_string(), "scaled constants".to_string()],
